@@ -453,8 +453,11 @@ fn abi_to_signature(abi: &InstrAbi, abi_span: Span, ctx: &mut CompilerContext<'_
                 | ArgEncoding::JumpTime
                 => Info { ty: ScalarType::Int, default: None, reg_ok: false, ty_color: None },
 
+                // Padding is never supplied by the caller (it is excluded from the argument count, and the
+                // encoder skips it), so it must not occupy a position in the parameter list either;
+                // otherwise every argument after mid-signature padding is matched to the wrong parameter.
                 | ArgEncoding::Padding { .. }
-                => Info { ty: ScalarType::Int, default: Some(sp!(0.into())), reg_ok: false, ty_color: None },
+                => return None,
 
                 | ArgEncoding::Float { .. }
                 => Info { ty: ScalarType::Float, default: None, reg_ok: true, ty_color: None },
